@@ -9,7 +9,7 @@ From SH Require Import gen.Extracted_details.
 Import ListNotations. Open Scope string_scope.
 
 Lemma calls_emulate_ok : calls_emulate =
-  ["low_level::raise"; ".iter"; ".find"; ".map"; ".ok_or_else"; "Error::from_raw_os_error"; "low_level::raise"; "restore_default";
+  ["return"; "low_level::raise"; ".iter"; ".find"; ".map"; ".ok_or_else"; "Error::from_raw_os_error"; "?"; "low_level::raise"; "restore_default";
    "mem::zeroed"; "prepare_sigset"; "libc::sigemptyset"; "libc::sigaddset"; "prepare_sigset"; "libc::sigprocmask"; "ptr::null_mut";
    "low_level::raise"; "libc::abort"].
 Proof. reflexivity. Qed.
